@@ -1,4 +1,4 @@
-CONSTANT Strict = FALSE
+CONSTANTS Strict = FALSE  Scope = {"scalar", "derive", "integrate", "combine", "eval", "query", "vnext"}
 INIT TraceInit
 NEXT TraceNext
 POSTCONDITION AllConsumed
